@@ -165,8 +165,9 @@ impl_parse! {
         "tag" => out.tag = Some(parse_assign_str(input)?),
         "export" => out.export = true,
         "export_to" => out.export_to = Some(parse_assign_expr(input)?),
-        "concrete" => out.concrete = parse_concrete(input)?,
-        "bound" => out.bound = Some(parse_bound(input)?),
+        // `concrete` and `bound` may be given more than once: the lists add up, as they do across attributes
+        "concrete" => out.concrete.extend(parse_concrete(input)?),
+        "bound" => out.bound.get_or_insert_with(Vec::new).extend(parse_bound(input)?),
         "optional_fields" => out.optional_fields = parse_optional(input)?,
     }
 }
@@ -176,7 +177,7 @@ impl_parse! {
         "rename" => out.0.rename = Some(parse_assign_expr(input)?),
         "rename_all" => out.0.rename_all = Some(parse_assign_inflection(input)?),
         "tag" => out.0.tag = Some(parse_assign_str(input)?),
-        "bound" => out.0.bound = Some(parse_bound(input)?),
+        "bound" => out.0.bound.get_or_insert_with(Vec::new).extend(parse_bound(input)?),
         // parse #[serde(default)] to not emit a warning
         "deny_unknown_fields" | "default" => {
             use syn::Token;
